@@ -7,7 +7,7 @@ P=$(readlink -f "$1"); PROP=${2:-all}
 D=$(mktemp -d /tmp/wc-scratch.XXXXXX)
 trap 'rm -rf "$D"' EXIT
 rsync -a --exclude .git /repo/ "$D/"
-if ! (cd "$D" && git init -q 2>/dev/null; git -C "$D" apply --whitespace=nowarn "$P" 2>/dev/null || patch -d "$D" -p1 -s < "$P"); then
+if ! (cd "$D" && git init -q 2>/dev/null; git -C "$D" apply --whitespace=nowarn "$P" 2>/dev/null); then
   echo "PATCH-DOES-NOT-APPLY $P"; exit 3
 fi
 export GOFLAGS=-mod=mod GOPROXY=off GOSUMDB=off GOTOOLCHAIN=local; unset GOWORK
